@@ -828,6 +828,40 @@ let run_recon toks =
             | None -> Printf.sprintf "Q%d.%d err" k r)
       | _ -> []) ops
 
+(* ------------------------------------------------------------------------- upload sessions (C16) *)
+let run_upl toks =
+  let (_, aux) = split_aux toks in
+  let text = String.concat " " aux in
+  let split_str sep s =
+    let ls = String.length sep in
+    let rec go acc start i =
+      if i + ls > String.length s then List.rev (String.sub s start (String.length s - start) :: acc)
+      else if String.sub s i ls = sep then go (String.sub s start (i - start) :: acc) (i + ls) (i + ls)
+      else go acc start (i + 1) in
+    go [] 0 0 in
+  List.filter_map (fun sess ->
+      match split_str ": " sess with
+      | name :: rest ->
+        let evs = List.filter (fun x -> String.trim x <> "") (split_str " ; " (String.concat ": " rest)) in
+        let toks = List.map (fun e -> String.split_on_char ' ' (String.trim e)) evs in
+        (* the session's task bookkeeping replayed on the observed store calls, up to the first shard upload *)
+        let rec upto acc = function [] -> List.rev acc | ("shard_start" :: _) :: _ -> List.rev acc | e :: r -> upto (e :: acc) r in
+        let before = upto [] toks in
+        let events = List.filter_map (function
+            | ["put_start"; k] -> Some (URegister (nat_of_int (int_of_string k)))
+            | ["put_end"; k; r] -> Some (UFinish (nat_of_int (int_of_string k), r = "ok"))
+            | _ -> None) before in
+        let s = urun true u_init events in
+        let put_failed = List.exists (function ["put_end"; _; "err"] -> true | _ -> false) toks in
+        let shard_started = List.exists (function "shard_start" :: _ -> true | _ -> false) toks in
+        let shard_failed = List.exists (function ["shard_end"; _; "err"] -> true | _ -> false) toks in
+        let allowed = (finalize_join true s = Some true) in
+        Some (Printf.sprintf "%s put_failed=%b shard_started=%s success=%s" (String.trim name) put_failed
+                (if shard_started && not allowed then "NOT-ALLOWED-BY-MODEL" else string_of_bool shard_started)
+                (* success is possible only when nothing failed; without failures every call returns Ok *)
+                (string_of_bool (not put_failed && not shard_failed)))
+      | [] -> None) (List.filter (fun x -> String.trim x <> "") (split_str " || " text))
+
 let () =
   let stream = Sys.argv.(1) in
   let ic = open_in Sys.argv.(2) in
@@ -849,6 +883,7 @@ let () =
              | "crash" -> run_crash toks
              | "sf" -> run_sf toks
              | "recon" -> run_recon toks
+             | "upl" -> run_upl toks
              | "c07" -> run_c07 toks
              | "bg4" -> run_bg4 toks
              | "c08" -> run_c08 toks
